@@ -34,6 +34,66 @@
         __CPROVER_loop_invariant((V_POS0 <= g_k && g_k < V_POS) ==> V_ISDIGIT(V_BUF[g_k])) \
         __CPROVER_decreases(g_len - V_POS)
 
+/* signed decimal: optional sign, digits; val holds the magnitude, sign applied at the end */
+#define V_SC0        (V_ISSIGN(V_BUF[V_POS0]) ? 1 : 0)
+#define CAT_VERIF_LOOP_parse_int_decimal \
+        __CPROVER_assigns(self->position, ch, val, sign, ok, *ret, g_sat, g_ndig) \
+        __CPROVER_loop_invariant(V_POS0 <= V_POS && V_POS <= g_len) \
+        __CPROVER_loop_invariant((sign == 0) == (V_POS == V_POS0)) \
+        __CPROVER_loop_invariant(V_POS > V_POS0 ==> ((sign == 1 || sign == -1) && ((sign == -1) == (V_BUF[V_POS0] == '-')))) \
+        __CPROVER_loop_invariant(g_ndig == ((V_POS > V_POS0) ? V_POS - V_POS0 - V_SC0 : 0)) \
+        __CPROVER_loop_invariant((ok != 0) == (g_ndig > 0)) \
+        __CPROVER_loop_invariant(g_ndig == 0 ==> g_sat == 0) \
+        __CPROVER_loop_invariant(g_sat <= 0x80000000ULL && val >= 0 && (unsigned long long)val == g_sat) \
+        __CPROVER_loop_invariant((V_POS0 + V_SC0 <= g_k && g_k < V_POS) ==> V_ISDIGIT(V_BUF[g_k])) \
+        __CPROVER_decreases(g_len - V_POS)
+
+/* 0x / 0X prefix then hex digits in either case */
+#define CAT_VERIF_LOOP_parse_num_hexadecimal \
+        __CPROVER_assigns(self->position, ch, val, state, *ret, g_sat, g_ndig) \
+        __CPROVER_loop_invariant(V_POS0 <= V_POS && V_POS <= g_len) \
+        __CPROVER_loop_invariant(0 <= state && state <= 3) \
+        __CPROVER_loop_invariant((state == 0) == (V_POS == V_POS0) && (state == 1) == (V_POS == V_POS0 + 1) && (state == 2) == (V_POS == V_POS0 + 2)) \
+        __CPROVER_loop_invariant(V_POS >= V_POS0 + 1 ==> V_BUF[V_POS0] == '0') \
+        __CPROVER_loop_invariant(V_POS >= V_POS0 + 2 ==> V_ISX(V_BUF[V_POS0 + 1])) \
+        __CPROVER_loop_invariant(g_ndig == ((V_POS >= V_POS0 + 2) ? V_POS - V_POS0 - 2 : 0)) \
+        __CPROVER_loop_invariant(g_sat <= 0xFFFFFFFFULL && val == g_sat) \
+        __CPROVER_loop_invariant((V_POS0 + 2 <= g_k && g_k < V_POS) ==> V_ISHEX(V_BUF[g_k])) \
+        __CPROVER_decreases(g_len - V_POS)
+
+/* byte buffer as pairs of hex digits; V_DATA is the variable's storage */
+#define V_DATA       ((uint8_t *)(self->var->data))
+#define V_NOTRO      (self->var->access != CAT_VAR_ACCESS_READ_ONLY)
+#define CAT_VERIF_LOOP_parse_buffer_hexadecimal \
+        __CPROVER_assigns(self->position, ch, byte, state, size, self->write_size, __CPROVER_object_upto(self->var->data, self->var->data_size)) \
+        __CPROVER_loop_invariant(V_POS0 <= V_POS && V_POS <= g_len) \
+        __CPROVER_loop_invariant((state == 0 || state == 1) && size <= self->var->data_size) \
+        __CPROVER_loop_invariant(V_POS - V_POS0 == 2 * size + (size_t)state) \
+        __CPROVER_loop_invariant(state == 0 ? byte == 0 : (V_ISHEX(V_BUF[V_POS - 1]) && byte == V_HEXVAL(V_BUF[V_POS - 1]))) \
+        __CPROVER_loop_invariant((V_POS0 <= g_k && g_k < V_POS) ==> V_ISHEX(V_BUF[g_k])) \
+        __CPROVER_loop_invariant((g_j < size && V_NOTRO) ==> V_DATA[g_j] == V_HEXVAL(V_BUF[V_POS0 + 2 * g_j]) * 16 + V_HEXVAL(V_BUF[V_POS0 + 2 * g_j + 1])) \
+        __CPROVER_loop_invariant((g_j < self->var->data_size && (g_j >= size || !V_NOTRO)) ==> V_DATA[g_j] == g_oldbyte) \
+        __CPROVER_decreases(g_len - V_POS)
+
+/* quoted string with escapes: automaton state 0 (expect quote) 1 (inside) 2 (after backslash) 3 (after closing quote) */
+#define CAT_VERIF_GHOST_parse_buffer_string_store \
+        { if (size == g_j) { g_src = V_POS - 1; g_esc = (state == 2); } g_size = size + 1; if (state == 2) g_nesc++; }
+#define CAT_VERIF_LOOP_parse_buffer_string \
+        __CPROVER_assigns(self->position, ch, state, size, self->write_size, g_size, g_nesc, g_src, g_esc, __CPROVER_object_upto(self->var->data, self->var->data_size)) \
+        __CPROVER_loop_invariant(V_POS0 <= V_POS && V_POS <= g_len) \
+        __CPROVER_loop_invariant(0 <= state && state <= 3 && (state == 0) == (V_POS == V_POS0)) \
+        __CPROVER_loop_invariant(V_POS > V_POS0 ==> V_BUF[V_POS0] == '"') \
+        __CPROVER_loop_invariant(size <= self->var->data_size && g_size == size && g_nesc <= V_POS - V_POS0) \
+        __CPROVER_loop_invariant(V_POS == V_POS0 ==> (size == 0 && g_nesc == 0)) \
+        __CPROVER_loop_invariant(state == 1 ==> V_POS - V_POS0 - 1 == size + g_nesc) \
+        __CPROVER_loop_invariant(state == 2 ==> (V_POS - V_POS0 - 2 == size + g_nesc && V_BUF[V_POS - 1] == '\\')) \
+        __CPROVER_loop_invariant(state == 3 ==> (V_POS - V_POS0 - 2 == size + g_nesc && V_BUF[V_POS - 1] == '"')) \
+        __CPROVER_loop_invariant((V_POS0 <= g_k && g_k < V_POS) ==> V_BUF[g_k] != 0) \
+        __CPROVER_loop_invariant(g_j < size ==> (V_POS0 < g_src && g_src < V_POS && g_src + (state >= 2 ? 1 : 0) < V_POS && (g_esc ? (V_ISESC(V_BUF[g_src]) && V_BUF[g_src - 1] == '\\' && g_src >= V_POS0 + 2) : (V_BUF[g_src] != '\\' && V_BUF[g_src] != '"' && V_BUF[g_src] != 0)))) \
+        __CPROVER_loop_invariant((g_j < size && V_NOTRO && g_src < V_POS) ==> V_DATA[g_j] == (uint8_t)(g_esc ? V_UNESC(V_BUF[g_src]) : V_BUF[g_src])) \
+        __CPROVER_loop_invariant((g_j < self->var->data_size && (g_j >= size || !V_NOTRO)) ==> V_DATA[g_j] == g_oldbyte) \
+        __CPROVER_decreases(g_len - V_POS)
+
 /* placeholders (filled in below as each loop is brought under contract) */
 #define CAT_VERIF_LOOP_is_variables_access_possible
 #define CAT_VERIF_LOOP_cat_is_unsolicited_event_buffered
@@ -41,15 +101,10 @@
 #define CAT_VERIF_LOOP_cat_init_groups
 #define CAT_VERIF_LOOP_cat_init_cmds
 #define CAT_VERIF_LOOP_is_command_disable
-#define CAT_VERIF_LOOP_parse_int_decimal
-#define CAT_VERIF_LOOP_parse_num_hexadecimal
-#define CAT_VERIF_LOOP_parse_buffer_hexadecimal
-#define CAT_VERIF_LOOP_parse_buffer_string
 #define CAT_VERIF_LOOP_format_buffer_hexadecimal
 #define CAT_VERIF_LOOP_format_buffer_string
 #define CAT_VERIF_LOOP_cat_search_command_by_name
 #define CAT_VERIF_LOOP_cat_search_command_group_by_name
 #define CAT_VERIF_LOOP_cat_search_variable_by_name
-#define CAT_VERIF_GHOST_parse_buffer_string_store
 
 #endif
